@@ -167,5 +167,24 @@ func GenDual(t *rapid.T) Case {
 	c.Lines = genLines(t, false, false, 1)
 	c.Lines6 = genLines(t, true, false, 1)
 	c.V6First = rapid.Bool().Draw(t, "v6first")
+	if rapid.IntRange(0, 2).Draw(t, "dual-refresh") == 0 {
+		// files that are rewritten in place have a fixed length: no very long lines
+		c.Lines, c.Lines6 = noPad(c.Lines), noPad(c.Lines6)
+		c.Refresh4, c.Refresh6 = rapid.Bool().Draw(t, "refresh4"), rapid.Bool().Draw(t, "refresh6")
+		if !c.Refresh4 && !c.Refresh6 {
+			c.Refresh6 = true
+		}
+		n := rapid.IntRange(1, 3).Draw(t, "nrewrites")
+		for i := 0; i < n; i++ {
+			rw := Rewrite{Target6: rapid.Bool().Draw(t, "target6")}
+			// mostly well-formed for the target; sometimes a file of the other family (malformed for it)
+			fam := rw.Target6
+			if rapid.IntRange(0, 3).Draw(t, "other-family") == 0 {
+				fam = !fam
+			}
+			rw.Lines = noPad(genLines(t, fam, false, 1))
+			c.Rewrites = append(c.Rewrites, rw)
+		}
+	}
 	return c
 }
